@@ -155,6 +155,35 @@ def run_gen(case):
     return rec
 
 
+def run_genbig(case):
+    R = _impl["Ranking"]
+    rec = dict(case)
+    rec.update(op="genbig", out="", sizes=[], distinct=[], minelem=[], maxelem=[], emptybuckets=0)
+    try:
+        random.seed(case["seed"])
+        rs = R.generate_rankings(case["n"], case["m"], case["steps"], bool(case["complete"]))
+        for r in rs:
+            vals = [e.value for b in r for e in b]
+            rec["sizes"].append(len(vals))
+            rec["distinct"].append(len(set(vals)))
+            rec["minelem"].append(int(min(vals)) if vals else 0)
+            rec["maxelem"].append(int(max(vals)) if vals else 0)
+            rec["emptybuckets"] += sum(1 for b in r if len(b) == 0)
+        rec["out"] = "ok"
+    except Exception as ex:
+        rec["out"] = "error:" + type(ex).__name__
+    return rec
+
+
+def genbig_cases(tier, rng):
+    out = []
+    for n in ((200, 33000) if tier == "quick" else (200, 5000, 33000, 70000)):
+        for steps in (0, 3, 40):
+            for c in (0, 1):
+                out.append({"n": n, "m": 2, "steps": steps, "complete": c, "seed": rng.randrange(10 ** 9)})
+    return out
+
+
 def gen_cases(tier, rng):
     out = []
     seeds = 6 if tier == "quick" else 50
@@ -199,5 +228,6 @@ def stages(tier, rng, only=None):
                  lambda r: r["after"] != r["v"], _init, chunk=40000),
            Stage("walks", "Trace_Markov", run_walk, lambda: walk_cases(tier, rng), lambda r: len(r["trace"]) >= 5, _init,
                  chunk=500),
-           Stage("gen", "Trace_Markov", run_gen, lambda: gen_cases(tier, rng), lambda r: r["n"] >= 2, _init)]
+           Stage("gen", "Trace_Markov", run_gen, lambda: gen_cases(tier, rng), lambda r: r["n"] >= 2, _init),
+           Stage("gen_large_n", "Trace_Markov", run_genbig, lambda: genbig_cases(tier, rng), lambda r: True, _init)]
     return [s for s in out if not only or s.name == only]
